@@ -19,6 +19,8 @@ def c01_canon(l):
 
 def c02_canon(l):
     d = kvs(l.split(" => ")[0])
+    if "now" not in d:
+        return l.split(" => ")[0]
     now = int(d["now"])
     out = []
     for e in d["us"].split(","):
